@@ -318,6 +318,101 @@ async fn rig_pair(pair: &str, senders: usize, per: u32) -> Result<(u64, u64), St
     Ok((got, gaps))
 }
 
+/// Many connected peers that say nothing, then one of them speaks: the receiver parked
+/// after looking at all of them, so whichever speaks must wake it. (Work limits per poll
+/// show only with more streams than the probe engine enumerates.)
+async fn many_idle_peers(me: &str, ctx: &mut Ctx, ty: &str, n: usize, seed: u64, case: &Value) {
+    use crate::sim::Managed;
+    use crate::sock::{peer_type_for, Peer, Sock};
+    use std::task::Poll;
+    let mut r = crate::prng::Rng::keyed(seed, &[5, 0x1D7E, n as u64]);
+    let mut sock = Sock::new(ty, None);
+    let mut peers = Vec::new();
+    for k in 0..n {
+        match Peer::attach(&sock, peer_type_for(ty), Some(format!("idle{k}").as_bytes())).await {
+            Ok(p) => peers.push(p),
+            Err(e) => {
+                ctx.inconclusive(format!("{me} attach: {e}"));
+                return;
+            }
+        }
+    }
+    if ty == "SUB" {
+        let _ = crate::sim::complete(sock.subscribe("")).await;
+    }
+    let mut next_seq = vec![0u32; n];
+    for round in 0..12 {
+        // the speaker: biased towards the peers that joined last
+        let who = if round % 2 == 0 { n - 1 - r.below(n.min(10)) } else { r.below(n) };
+        let mut rv = Managed::new(sock.recv());
+        match rv.poll_once() {
+            Poll::Pending => {}
+            Poll::Ready(x) => {
+                ctx.violation_with(&format!("{me}/message-from-nowhere/{ty}"), format!("recv returned {x:?} although all {n} peers are silent"), case.clone());
+                return;
+            }
+        }
+        crate::sim::settle().await;
+        while rv.woken() {
+            // (wake-ups left over from registering wakers: poll until it really parks)
+            if rv.poll_once().is_ready() {
+                ctx.violation_with(&format!("{me}/message-from-nowhere/{ty}"), "recv returned although all peers are silent".into(), case.clone());
+                return;
+            }
+            crate::sim::settle().await;
+        }
+        let payload = crate::refcodec::tagged(who as u16, next_seq[who], &[r.below(300)]);
+        let wire: crate::refcodec::Frames = if ty == "REP" {
+            let mut w = vec![vec![]];
+            w.extend(payload.clone());
+            w
+        } else {
+            payload.clone()
+        };
+        peers[who].send(&wire);
+        crate::sim::settle().await;
+        ctx.count("messages_from_one_of_many_idle_peers");
+        if !rv.woken() {
+            // nothing will wake it any more: is the message there for the taking?
+            let got = rv.poll_once();
+            let sig = if me == "C06" { format!("C06/socket-lost-wakeup/{ty}") } else { format!("C05/message-never-delivered/{ty}") };
+            ctx.violation_with(
+                &sig,
+                format!(
+                    "{n} connected peers, all idle; the receiver parked; peer {who} then sent a message and the receiver was not woken (a poll without wake-up {})",
+                    if got.is_ready() { "returns the message" } else { "returns nothing either" }
+                ),
+                case.clone(),
+            );
+            return;
+        }
+        match rv.drive().await {
+            Ok(Some(Ok(m))) => {
+                let skip = if ty == "ROUTER" { 1 } else { 0 };
+                match crate::refcodec::parse_tag(&m, skip) {
+                    Ok(t) if t.origin as usize == who && t.seq == next_seq[who] => {}
+                    other => {
+                        if me == "C05" {
+                            ctx.violation_with(&format!("C05/lost-or-reordered/{ty}"), format!("expected ({who},{}) got {other:?}", next_seq[who]), case.clone());
+                        }
+                        return;
+                    }
+                }
+            }
+            other => {
+                let sig = if me == "C06" { format!("C06/available-message-never-returned/{ty}") } else { format!("C05/message-never-delivered/{ty}") };
+                ctx.violation_with(&sig, format!("peer {who} of {n} sent a message; recv gave {other:?}"), case.clone());
+                return;
+            }
+        }
+        drop(rv);
+        next_seq[who] += 1;
+        if ty == "REP" {
+            let _ = crate::sim::complete(sock.send(&crate::refcodec::tagged(999, round, &[1]))).await;
+        }
+    }
+}
+
 fn busy_recv_case(me: &str, case: &Value, ctx: &mut Ctx) {
     use std::process::{Command, Stdio};
     let ty = s(case, "ty").to_string();
@@ -391,6 +486,12 @@ fn busy_recv_case(me: &str, case: &Value, ctx: &mut Ctx) {
 fn run_case(me: &str, case: &Value, ctx: &mut Ctx) {
     match s(case, "kind") {
         "busy_recv" => busy_recv_case(me, case, ctx),
+        "many_idle" => {
+            ctx.eval(crate::prng::hash_str(&case.to_string()), true);
+            ctx.sample("many_idle", || case.clone());
+            let ty = s(case, "ty").to_string();
+            sim::run(many_idle_peers(me, ctx, &ty, u(case, "n") as usize, u(case, "seed"), case));
+        }
         "rig_pair" => {
             let pair = s(case, "pair").to_string();
             ctx.eval(crate::prng::hash_str(&case.to_string()), true);
@@ -541,6 +642,13 @@ fn common_cases(tier: Tier, seed: u64, me: &str) -> Vec<Value> {
             v.push(json!({"kind": "rig_pair", "pair": pair, "senders": senders, "per": tier.pick(300, 3000)}));
         }
     }
+    for ty in FQ_TYPES {
+        for n in [33usize, 40, 70, 130] {
+            for k in 0..tier.pick(2u64, 20) {
+                v.push(json!({"kind": "many_idle", "ty": ty, "n": n, "seed": mix(seed ^ 0x1D7E ^ k)}));
+            }
+        }
+    }
     // socket level
     for ty in FQ_TYPES {
         for n in 1..=6usize {
@@ -598,6 +706,7 @@ impl Prop for C05 {
             ("sock_reconnects_under_the_same_identity", 20),
             ("sock_cooperative_yields", 100),
             ("rig_messages_delivered", 5000),
+            ("messages_from_one_of_many_idle_peers", 300),
         ]
     }
     fn case_timeout(&self) -> std::time::Duration {
